@@ -74,6 +74,8 @@ class Report(object):
         self.violations.append((name, replay, '' if confirmed else ' no-failing-input-found'))
 
     def known(self, text):
+        if any(t[:100] == text[:100] for t in self.known_lines):
+            return          # one line per listed finding
         self.known_lines.append(text)
 
     def finish(self, evidence):
